@@ -11,6 +11,7 @@ import (
 	"net/http"
 	"net/http/httptest"
 	"os"
+	"runtime"
 	"strconv"
 	"strings"
 	"sync"
@@ -326,7 +327,13 @@ func TestVerifGauge(t *testing.T) {
 	if rounds <= 0 {
 		rounds = 1500
 	}
-	be := httptest.NewServer(http.HandlerFunc(func(w http.ResponseWriter, r *http.Request) { w.WriteHeader(204) }))
+	var served atomic.Int64
+	be := httptest.NewServer(http.HandlerFunc(func(w http.ResponseWriter, r *http.Request) {
+		if served.Add(1)%97 == 1 {
+			time.Sleep(1500 * time.Microsecond) // now and then a measurable response time
+		}
+		w.WriteHeader(204)
+	}))
 	defer be.Close()
 	cfg := &config.Config{}
 	cfg.LoadBalancer.Strategy = "round_robin"
@@ -359,10 +366,80 @@ func TestVerifGauge(t *testing.T) {
 			if bm.ActiveConnections != 0 {
 				t.Fatalf("VERIF-GAUGE round %d: metrics report active_connections=%d for %s while nothing is in flight", round, bm.ActiveConnections, name)
 			}
+			// one backend: everything the balancer forwarded is on its books, nothing else
+			if sent := uint64(served.Load()); bm.TotalRequests != sent || bm.SuccessfulRequests+bm.FailedRequests != bm.TotalRequests {
+				t.Fatalf("VERIF-GAUGE round %d: backend %s received %d requests, its books show total=%d ok=%d failed=%d", round, name, sent, bm.TotalRequests, bm.SuccessfulRequests, bm.FailedRequests)
+			}
 		}
 		if m.TotalRequests != m.SuccessfulRequests+m.FailedRequests+m.RateLimitedRequests {
 			t.Fatalf("VERIF-GAUGE round %d: total %d != ok %d + failed %d + limited %d while idle", round, m.TotalRequests, m.SuccessfulRequests, m.FailedRequests, m.RateLimitedRequests)
 		}
 	}
 	fmt.Printf("gauge-workload done rounds=%d\n", rounds)
+}
+
+// TestVerifDupAdd: several admin clients add a backend under the SAME name at the same instant
+// (spin gate). Exactly one of them may be told "created"; the name is then listed exactly once,
+// and after one successful remove it is gone and receives nothing (C11: names stay unique and the
+// backend set is what the answers say, whatever the interleaving).
+func TestVerifDupAdd(t *testing.T) {
+	rounds, _ := strconv.Atoi(os.Getenv("VERIF_DUP_ROUNDS"))
+	if rounds <= 0 {
+		rounds = 300
+	}
+	be := httptest.NewServer(http.HandlerFunc(func(w http.ResponseWriter, r *http.Request) {}))
+	defer be.Close()
+	cfg := &config.Config{}
+	cfg.LoadBalancer.Strategy = "round_robin"
+	cfg.Backends = []config.BackendConfig{{Name: "b0", Address: be.URL, Weight: 1}}
+	cfg.AdminAPI = config.AdminAPIConfig{Enabled: true, AuthToken: "tok"}
+	lb, err := loadbalancer.NewLoadBalancer(cfg)
+	if err != nil {
+		t.Fatalf("NewLoadBalancer: %v", err)
+	}
+	defer lb.Stop()
+	admin := adminapi.NewMux(lb, cfg, lb.GetMetricsCollector())
+	call := func(method, path, body string) (int, string) {
+		r := httptest.NewRequest(method, path, strings.NewReader(body))
+		r.RemoteAddr = "192.0.2.7:999"
+		r.Header.Set("Authorization", "Bearer tok")
+		rec := httptest.NewRecorder()
+		admin.ServeHTTP(rec, r)
+		return rec.Code, rec.Body.String()
+	}
+	const twins = 4
+	for r := 0; r < rounds; r++ {
+		var ready, goFlag, created int32
+		var wg sync.WaitGroup
+		for k := 0; k < twins; k++ {
+			wg.Add(1)
+			go func() {
+				defer wg.Done()
+				atomic.AddInt32(&ready, 1)
+				for atomic.LoadInt32(&goFlag) == 0 {
+				}
+				code, _ := call("POST", "/v1/backends/add", fmt.Sprintf(`{"name":"dup","address":%q,"weight":1}`, be.URL))
+				if code == 201 {
+					atomic.AddInt32(&created, 1)
+				}
+			}()
+		}
+		for atomic.LoadInt32(&ready) < twins {
+			runtime.Gosched()
+		}
+		atomic.StoreInt32(&goFlag, 1)
+		wg.Wait()
+		_, body := call("GET", "/v1/backends", "")
+		listed := strings.Count(body, `"dup"`)
+		if created != 1 || listed != 1 {
+			t.Fatalf("VERIF-ADMIN round %d: %d simultaneous adds of the name dup: %d answered 201, the name is listed %d times", r, twins, created, listed)
+		}
+		if code, _ := call("POST", "/v1/backends/remove", `{"name":"dup"}`); code != 200 {
+			t.Fatalf("VERIF-ADMIN round %d: remove of dup answered %d", r, code)
+		}
+		if _, body := call("GET", "/v1/backends", ""); strings.Contains(body, `"dup"`) {
+			t.Fatalf("VERIF-ADMIN round %d: dup was removed (200) but is still listed", r)
+		}
+	}
+	fmt.Printf("dup-add done rounds=%d\n", rounds)
 }
